@@ -165,7 +165,8 @@ def _contained(si, hi, s1, s2, s3, nseg, trailing, qi, use_dir, cut, protocol, h
 _CD = ['attachment; filename=a.txt', 'attachment; filename="../../etc/passwd"', 'filename=/abs/olute', 'filename=..', 'filename="."',
        'attachment; filename="a\\\\b"', 'filename=a/b;x=y', 'filename="x\x00y"', "filename='q.q'", 'inline', 'filename=" "', 'filename=.hidden',
        'attachment; filename="..\\\\..\\\\win"', 'filename=%2e%2e%2f', 'filename=con.', 'FILENAME = "UP/per"',
-       'filename=" .."', 'filename=".. "', 'filename=" . "', 'filename="\t..\t"', 'filename="..\\\\..\\\\autoexec.bat ."', 'filename="a/../b ."', 'filename=""']
+       'filename=" .."', 'filename=".. "', 'filename=" . "', 'filename="\t..\t"', 'filename="..\\\\..\\\\autoexec.bat ."', 'filename="a/../b ."', 'filename=""',
+       'attachment; filename=; size=12', 'filename=', 'attachment; filename= ; x=y', 'filename=;']
 
 
 def _session(namer, url, cd_value):
